@@ -421,7 +421,7 @@ def r02_8(ctx, rr):
         best = None
         for n in walk(b.body):
             if n.get("k") == "If":
-                cl = astnorm.int_classes(n)
+                cl = astnorm.int_classes(n, evalf=const_evalf(F, b))
                 if cl and len(cl) >= 3 and (best is None or len(cl) > len(best)):
                     best = cl
         if best:
